@@ -1,3 +1,10 @@
+// Package c01 checks property C01: the rows a read-only query returns do not depend on the
+// physical plan the optimizer picks.
+//
+// One generated statement is executed under K configurations that steer the memo to different
+// alternatives (seeded hash coster through the public analyzer.Analyzer.Coster field, optimizer
+// hint comments, @@disable_merge_join, an index-free copy of the schema); all executions must
+// return the same normalised multiset (the same sequence under the generated, total ORDER BY).
 package c01
 
 import (
@@ -11,16 +18,30 @@ import (
 
 	"github.com/dolthub/go-mysql-server/sql"
 	"github.com/dolthub/go-mysql-server/sql/memo"
+	"github.com/dolthub/go-mysql-server/sql/plan"
 	"github.com/dolthub/go-mysql-server/vh/internal/fx"
 	"github.com/dolthub/go-mysql-server/vh/internal/gen"
+	"github.com/dolthub/go-mysql-server/vh/internal/kf"
 	"github.com/dolthub/go-mysql-server/vh/internal/ref"
 	"github.com/dolthub/go-mysql-server/vh/internal/stats"
 	"pgregory.net/rapid"
 )
 
+// finding ids used by this check (the first four are shared with C02, whose generator
+// already excludes their regions)
+const (
+	idReorder  = "C01-join-reorder-drops-conjunct"
+	idRound    = "C01-lookup-key-rounding"
+	idInterm   = "C02-reorder-join-intermediate-expr"
+	idOuterSub = "C02-outer-join-false-on-subquery"
+	idRHFilter = "C01-rangeheap-drops-index-filter"
+	idRHType   = "C01-rangeheap-mixed-type-compare"
+)
+
 // hashCoster assigns every physical alternative a pseudo-random but deterministic cost
 // derived from (salt, operator type, operands), so that across salts every alternative the
-// optimizer itself considers executable becomes the chosen plan for some salt.
+// optimizer itself considers executable becomes the chosen plan for some salt. Costs are
+// finite and positive, which is all the memo assumes.
 type hashCoster struct{ salt uint64 }
 
 func (c hashCoster) EstimateCost(ctx *sql.Context, r memo.RelExpr, _ sql.StatsProvider) (float64, error) {
@@ -31,18 +52,37 @@ func (c hashCoster) EstimateCost(ctx *sql.Context, r memo.RelExpr, _ sql.StatsPr
 
 var (
 	reIDs  = regexp.MustCompile(`(tableId|colSet): [^\n]*\n`)
-	reOps  = regexp.MustCompile(`\b(LeftOuterHashJoinExcludeNulls|LeftOuterJoinExcludingNulls|LeftOuterHashJoin|LeftOuterMergeJoin|LeftOuterLookupJoin|LeftOuterRangeHeapJoin|LeftOuterJoin|AntiJoinIncludingNulls|AntiHashJoinIncludingNulls|AntiLookupJoinIncludingNulls|AntiMergeJoinIncludingNulls|AntiHashJoin|AntiLookupJoin|AntiMergeJoin|AntiJoin|SemiHashJoin|SemiLookupJoin|SemiMergeJoin|SemiJoin|CrossHashJoin|CrossJoin|RangeHeapJoin|LookupJoin|HashJoin|MergeJoin|InnerJoin|FullOuterJoin|LateralCrossJoin|LateralInnerJoin|LateralLeftJoin)\b`)
-	reLine = regexp.MustCompile(`(?m)^[ │├└─]*`)
+	reLine = regexp.MustCompile(`^[ │├└─]*`)
+	// joinNames is the set of names a plan.JoinNode prints for its operator
+	joinNames = func() map[string]bool {
+		m := map[string]bool{}
+		for i := plan.JoinTypeUnknown + 1; i <= plan.JoinTypeLateralRight; i++ {
+			m[i.String()] = true
+		}
+		return m
+	}()
 )
+
+// requiredOps are the join operators the optimizer can produce for the generated statements
+// (sql/analyzer/indexed_joins.go: lookup joins for inner/left/semi, hash and range-heap joins
+// for inner/left, merge joins for inner/left, cross-hash joins over derived tables, the
+// anti-join forms and their left-join rewrites). The enum values SemiHashJoin, SemiMergeJoin,
+// AntiHashJoin*, AntiLookup*, AntiMerge* are never constructed by the optimizer.
+var requiredOps = []string{
+	"InnerJoin", "CrossJoin", "CrossHashJoin", "HashJoin", "LookupJoin", "MergeJoin", "RangeHeapJoin",
+	"LeftOuterJoin", "LeftOuterHashJoin", "LeftOuterLookupJoin", "LeftOuterMergeJoin", "LeftOuterRangeHeapJoin",
+	"SemiJoin", "SemiLookupJoin", "AntiJoin", "AntiJoinIncludingNulls",
+	"LeftOuterJoinExcludingNulls", "LeftOuterHashJoinExcludingNulls",
+}
 
 func planShape(p string) string { return reIDs.ReplaceAllString(p, "") }
 
 func planOps(p string) []string {
 	seen := map[string]bool{}
 	for _, l := range strings.Split(p, "\n") {
-		l = reLine.ReplaceAllString(l, "")
-		if m := reOps.FindString(l); m != "" && strings.HasPrefix(l, m) {
-			seen[m] = true
+		l = strings.TrimSpace(reLine.ReplaceAllString(l, ""))
+		if joinNames[l] {
+			seen[l] = true
 		}
 	}
 	out := make([]string, 0, len(seen))
@@ -98,13 +138,70 @@ func hints(rt *rapid.T, q *gen.Select) string {
 	return "/*+ " + strings.Join(hs, " ") + " */"
 }
 
+// outcome is one execution of the statement.
+type outcome struct {
+	cfg  config
+	res  *fx.Result
+	rows [][]string
+	plan string
+	ops  []string
+	sql  string
+}
+
+func runConfig(fail func(string, ...any), ddl func(withKeys bool) []string, c config, q *gen.Select) outcome {
+	f := fx.New(fx.Opts{Coster: c.coster})
+	defer f.Close()
+	s := f.NewSession("", "", "")
+	s.MustExec(fail, ddl(!c.noKeys)...)
+	if c.noMerge {
+		s.MustExec(fail, "SET @@disable_merge_join = 1")
+	}
+	q.Hint = c.hint
+	text := q.SQL()
+	q.Hint = ""
+	r := s.Exec(text)
+	o := outcome{cfg: c, res: r, sql: text, plan: s.Plan(text)}
+	o.ops = planOps(o.plan)
+	if r.OK() {
+		o.rows = fx.NormRows(r.Schema, r.Rows)
+	}
+	return o
+}
+
+func sameOutcome(a, b outcome, ordered bool) bool {
+	if a.res.OK() != b.res.OK() {
+		return false
+	}
+	if !a.res.OK() {
+		// both failed (error or recovered panic): the outcome does not depend on the plan. A
+		// crash under every plan is a matter of property C10, not of this one; it is counted.
+		return true
+	}
+	if ordered {
+		return fx.SeqEqual(a.rows, b.rows)
+	}
+	return fx.MultisetEqual(a.rows, b.rows)
+}
+
+func hasOp(o outcome, sub string) bool {
+	for _, op := range o.ops {
+		if strings.Contains(op, sub) {
+			return true
+		}
+	}
+	return false
+}
+
 func TestC01(t *testing.T) {
 	st := stats.New("C01", "")
 	defer st.Flush()
 	thorough := os.Getenv("VERIF_TIER") == "thorough"
 	maxRows, nCfg := 8, 6
 	if thorough {
-		maxRows, nCfg = 16, 14
+		maxRows, nCfg = 14, 10
+	}
+	for _, op := range requiredOps {
+		st.ClassN("op:"+op, 0) // so that an operator that never occurred shows up as 0 in the evidence
 	}
 	rapid.Check(t, func(rt *rapid.T) {
 		st.Eval()
@@ -115,6 +212,8 @@ func TestC01(t *testing.T) {
 			g.MaxJoin = 4
 		}
 		q := g.Select()
+		a := &aug{rt: rt, s: schema, q: q, excl: map[string]int{}, labels: map[string]bool{}}
+		a.run()
 
 		cfgs := []config{{name: "default"}}
 		for i := 1; i < nCfg; i++ {
@@ -132,48 +231,46 @@ func TestC01(t *testing.T) {
 			}
 		}
 
-		type outcome struct {
-			cfg  config
-			res  *fx.Result
-			rows [][]string
-			plan string
-			sql  string
-		}
 		var outs []outcome
 		for _, c := range cfgs {
-			f := fx.New(fx.Opts{Coster: c.coster})
-			s := f.NewSession("", "", "")
-			s.MustExec(rt.Fatalf, schema.DDL(!c.noKeys)...)
-			if c.noMerge {
-				s.MustExec(rt.Fatalf, "SET @@disable_merge_join = 1")
+			o := runConfig(rt.Fatalf, schema.DDL, c, q)
+			// known findings whose symptom is a planning error (shared with C02, same signatures)
+			if o.res.Failed() {
+				msg := o.res.Err.Error()
+				if strings.Contains(msg, "failed to reorder join, unexpected intermediate expression") &&
+					(g.L["exists"] || a.labels["exists"]) && kf.Suppress(st, idInterm) {
+					return
+				}
+				if strings.Contains(msg, "unable to find field with index") && gen.ConstConjunctInOuterOn(q) &&
+					(g.L["insub"] || g.L["notinsub"] || g.L["exists"] || a.labels["insub"] || a.labels["notinsub"] || a.labels["exists"]) &&
+					kf.Suppress(st, idOuterSub) {
+					return
+				}
 			}
-			q.Hint = c.hint
-			text := q.SQL()
-			q.Hint = ""
-			r := s.Exec(text)
-			o := outcome{cfg: c, res: r, sql: text, plan: s.Plan(text)}
-			if r.OK() {
-				o.rows = fx.NormRows(r.Schema, r.Rows)
+			// region of C01-rangeheap-drops-index-filter (while listed): a range heap join over a
+			// table that also carries a single-table conjunct; such executions are not compared
+			if kf.Listed(idRHFilter) && hasOp(o, "RangeHeap") && a.singleTableConjunct() {
+				st.Excluded(idRHFilter)
+				continue
+			}
+			// region of C01-rangeheap-mixed-type-compare (while listed): a range heap join whose
+			// range predicate compares columns of different numeric types
+			if kf.Listed(idRHType) && hasOp(o, "RangeHeap") && a.mixedKindRange() {
+				st.Excluded(idRHType)
+				continue
+			}
+			if o.res.TimedOut {
+				rt.Skip("timeout") // never a violation
 			}
 			outs = append(outs, o)
-			f.Close()
+		}
+		if len(outs) == 0 {
+			return
 		}
 		base := outs[0]
 		ordered := len(q.OrderBy) > 0
-		same := func(a, b outcome) bool {
-			if a.res.OK() != b.res.OK() {
-				return false
-			}
-			if !a.res.OK() {
-				return a.res.Panic == nil && b.res.Panic == nil && !a.res.TimedOut && !b.res.TimedOut
-			}
-			if ordered {
-				return fx.SeqEqual(a.rows, b.rows)
-			}
-			return fx.MultisetEqual(a.rows, b.rows)
-		}
 		for _, o := range outs[1:] {
-			if same(base, o) {
+			if sameOutcome(base, o, ordered) {
 				continue
 			}
 			// name the side that disagrees with the SQL definition (report only)
@@ -183,27 +280,42 @@ func TestC01(t *testing.T) {
 				schema.Describe(), o.sql, base.cfg.name, base.res, o.cfg.name, o.res, fx.ShowSeq(want), base.plan, o.plan)
 		}
 		shapes := map[string]bool{}
+		ops := map[string]bool{}
 		for _, o := range outs {
 			if o.plan != "" {
 				shapes[planShape(o.plan)] = true
-				for _, op := range planOps(o.plan) {
-					st.Class("op:" + op)
+				for _, op := range o.ops {
+					ops[op] = true
 				}
 			}
+		}
+		for op := range ops {
+			st.Class("op:" + op) // counted once per case: some executed plan contained the operator
 		}
 		st.Class(fmt.Sprintf("distinct-plans:%d", len(shapes)))
 		for _, l := range g.L.Sorted() {
 			st.Class(l)
 		}
-		for k, n := range g.Excl {
-			st.ClassN("excluded:"+k, n)
-			for i := 0; i < n; i++ {
-				st.Excluded(k)
+		for l := range a.labels {
+			st.Class("aug:" + l)
+		}
+		for _, m := range []map[string]int{g.Excl, a.excl} {
+			for k, n := range m {
+				for i := 0; i < n; i++ {
+					st.Excluded(k)
+				}
 			}
 		}
 		if !base.res.OK() {
-			st.Class("all-error")
+			if base.res.Panic != nil {
+				st.Class("all-panic")
+			} else {
+				st.Class("all-error")
+			}
 			return
+		}
+		if len(base.rows) > 0 {
+			st.Class("nonempty")
 		}
 		if len(shapes) >= 2 && len(base.rows) > 0 {
 			st.NonTrivial(map[string]any{"schema": schema.Describe(), "query": base.sql, "plans": len(shapes), "rows": len(base.rows)}, schema.Describe(), base.sql)
